@@ -8,6 +8,7 @@ if ctx.replay:
     _core_check.replay(ctx); sys.exit(0)
 vlib.proof_phase(ctx)
 _core_check.source_pub(ctx)
+_core_check.source_def(ctx)      # a second update finds the deferred ids resolved and touches nothing (Properties_def_source)
 _core_check.source_phase(ctx)    # a fresh compiler per update; the phases in the model's order (Properties_phase_source)
 _core_check.source_gv(ctx)       # dispatch_data is resized, not cleared: what an update does not write is stale (Properties_gv_source)
 _core_check.source_tab(ctx)      # "assigning next" runs in every update (Properties_tab_source: C03_source_next)
